@@ -70,7 +70,7 @@ def generate(seed, tier):
         return {"prop": PROP, "kind": "env", "cfg": cfg, "h1": mk(n if rng.random() < 0.5 else rng.randint(1, n)), "h2": mk(n if rng.random() < 0.6 else rng.randint(1, n)),
                 "rng_state_seed": rng.randrange(1 << 30)}
     names, style = gen_filter(rng, None, p_none=0.5)
-    spec = gen_instance(rng, max_jobs=4, max_machines=4, max_ops=4, positive=True if names else None)
+    spec = gen_instance(rng, sparse_ids=0.03, max_jobs=4, max_machines=4, max_ops=4, positive=True if names else None)
     n = n_ops(spec)
     mk = lambda k: [["dispatch", rng.randrange(64), rng.randrange(64), int(rng.random() < 0.5)] for _ in range(k)]  # noqa: E731
     return {"prop": PROP, "kind": "dispatch", "cfg": {"instance": spec, "filter": names, "filter_style": style, "observers": gen_observer_set(rng)},
